@@ -294,14 +294,38 @@ func genC15(r *Rng, tier string) (*Scenario, []Op) {
 			ops = append(ops, o)
 		}
 	}
+	// an operation that runs shuffle() but whose result does not depend on the permutation
+	ops = append(ops, Op{Kind: "evalstr", Src: "{{ xs.shuffle().len() }}", Data: &Val{T: "map", K: []string{"xs"}, V: []Val{{T: "ints", A: []Val{VInt(1), VInt(2), VInt(3)}}}}})
+	cold := r.Chance(25)
+	if cold {
+		// cold start: nothing is loaded or evaluated before the concurrent phase, so the tasks'
+		// first lexing / parsing / evaluation (and any lazy initialisation) overlap
+		sc.Family = "cold"
+		sc.Setup = nil
+		sc.Ops = nil
+		var cops []Op
+		for _, o := range ops {
+			if o.Kind == "evalstr" || o.Kind == "evalfile" {
+				cops = append(cops, o)
+			}
+		}
+		ops = cops
+	}
 	g := r.Range(2, 4)
 	for i := 0; i < g; i++ {
 		n := r.Range(1, 3)
 		var task []Op
 		for j := 0; j < n; j++ {
-			task = append(task, Pick(r, ops))
+			o := Pick(r, ops)
+			if o.Kind != "evalstr" && o.Kind != "evalfile" && strings.HasPrefix(o.Name, "no/such/") {
+				o.Name = fmt.Sprintf("no/such/page-%d-%d", i, j) // a name nobody has asked for before
+			}
+			task = append(task, o)
 		}
 		sc.Tasks = append(sc.Tasks, task)
+	}
+	if cold {
+		return sc, nil
 	}
 	for _, p := range t.Pages {
 		sc.Ops = append(sc.Ops, Op{Kind: "string", Name: p, Data: t.Data})
@@ -353,8 +377,9 @@ func (p c15) Run(seed uint64, run int, tier string, acc *Acc) *Violation {
 	if tier == "thorough" {
 		nsched, maxk = 24, 6
 	}
+	acc.Probe("family/"+map[bool]string{true: "cold-start", false: "after-load"}[sc.Family == "cold"], 1)
 	if run%53 == 0 {
-		acc.Sample(map[string]any{"tasks": tasksSummary(sc.Tasks), "task_steps": steps, "config": sc.Setup[len(sc.Setup)-1].Cfg})
+		acc.Sample(map[string]any{"family": sc.Family, "tasks": tasksSummary(sc.Tasks), "task_steps": steps})
 	}
 	for si := 0; si < nsched; si++ {
 		k := r.Range(1, maxk)
